@@ -75,7 +75,7 @@ Theorem create_next_table_alloc s slot pf s' c :
   freed s' = freed s /\ root s' = root s /\
   (if rd s slot =? 0 then nalloc s' = nalloc s + 1 else nalloc s' = nalloc s).
 Proof.
-  unfold create_next_table. intros H.
+  unfold create_next_table, create_next_table_g. intros H.
   destruct (rd s slot =? 0) eqn:He.
   - destruct (allocate s) as [[f|] s1] eqn:Ha.
     + assert (Hs1 : freed s1 = freed s /\ root s1 = root s /\ nalloc s1 = nalloc s + 1).
@@ -102,7 +102,7 @@ Theorem create_next_table_zeroed s slot pf s' t i :
   0 <= t -> t mod 4096 = 0 ->
   rd s' (t + 8 * i) = 0.
 Proof.
-  unfold create_next_table. intros He Hi H Ht Hm.
+  unfold create_next_table, create_next_table_g. intros He Hi H Ht Hm.
   rewrite He in H. cbn [Z.eqb] in H.
   destruct (allocate s) as [[f|] s1]; [|discriminate].
   destruct (negb (f mod 4096 =? 0)); [discriminate|].
